@@ -254,6 +254,12 @@ class MountFS(FS):
         fs, _path = self._delegate(path)
         return fs.isdir(_path)
 
+    def islink(self, path):
+        # type: (Text) -> bool
+        self.check()
+        fs, _path = self._delegate(path)
+        return fs.islink(_path)
+
     def isfile(self, path):
         # type: (Text) -> bool
         self.check()
